@@ -66,7 +66,7 @@ impl Property for C13 {
         "C13"
     }
     fn rule(&self) -> String {
-        "Cases: (a) subject of any type/length/provenance -> to_vec and write in both endiannesses compared with model bytes (exactly ceil(n/8) bytes, surplus bits zero, Big = reversed Little) and the round trips read(write(v))==v, from_bytes(to_vec(v)) == v zero-extended to whole bytes; (b) arbitrary byte strings of 0..ceil(C/8)+2 (<=48) bytes -> from_bytes: length 8*|bytes| and exact bits, or NotEnoughCapacity iff 8*|bytes|>C; (c) read(bytes, len, endianness, reader chunking all-at-once | one byte per call) with surplus high bits SET: Err (never a panic) when the input is short or len>C, otherwise exactly len bits with the surplus discarded, exactly ceil(len/8) bytes consumed, battery clean. Enumerated: every length 0..=min(C,320) x both endiannesses x two byte patterns (0xFF.., mixed) x 20 types for (a) and (c), every byte count 0..=C/8+2 for (b). Non-trivial: len%8 != 0 with a surplus bit set in the top byte, or the vector spans several storage words. Distinct by hash of the case.".into()
+        "Cases: (a) subject of any type/length/provenance -> to_vec and write in both endiannesses compared with model bytes (exactly ceil(n/8) bytes, surplus bits zero, Big = reversed Little) and the round trips read(write(v))==v, from_bytes(to_vec(v)) == v zero-extended to whole bytes; (b) arbitrary byte strings of 0..ceil(C/8)+2 (<=48) bytes -> from_bytes: length 8*|bytes| and exact bits, or NotEnoughCapacity iff 8*|bytes|>C; (c) read(bytes, len, endianness, reader chunking all-at-once | one byte per call) with surplus high bits SET: Err (never a panic) when the input is short or len>C, otherwise exactly len bits with the surplus discarded, exactly ceil(len/8) bytes consumed, battery clean. Enumerated: every length 0..=min(C,320) x both endiannesses x two byte patterns (0xFF.., mixed) x 20 types for (a) and (c), every byte count 0..=C/8+2 for (b); plus (a) and (c) on the 70 400-bit fixed type at 10 lengths around its thresholds and capacity, and, for Bvd and Bv, on a geometric ladder of lengths around every power of two from 2^14 to 2^21 (thorough: 2^24) bits with a 10-byte trailer behind the record. Non-trivial: len%8 != 0 with a surplus bit set in the top byte, or the vector spans several storage words. Distinct by hash of the case.".into()
     }
     fn random_cases(&self, tier: Tier) -> u64 {
         tier.pick(200000, 6400000)
@@ -106,7 +106,7 @@ impl Property for C13 {
         ]
     }
     fn enumerate(&self, tier: Tier, sh: &mut Shard, f: &mut dyn FnMut(C13Case) -> bool) {
-        for ty in 0..NT {
+        for ty in ROUTINE_TIDS {
             let c = fixed_cap(ty).unwrap_or(320);
             let top = if fixed_cap(ty).is_some() { c + 9 } else { c };
             for len in 0..=top {
@@ -153,7 +153,39 @@ impl Property for C13 {
                 return;
             }
         }
-        for ty in 0..NT {
+        // very long records (the 70 400-bit fixed type, and a geometric ladder on the unbounded
+        // types): a trailer of 10 bytes must stay unread, the surplus bits are set
+        let mut long: Vec<(Tid, usize)> = HUGE_TYPE_LENS.iter().map(|&n| (TID_HUGE, n)).collect();
+        long.extend([(TID_HUGE, 70_393), (TID_HUGE, 70_401), (TID_HUGE, 70_464)]);
+        long.extend(ladder_lengths(tier));
+        for (ty, len) in long {
+            if !sh.mine() {
+                continue;
+            }
+            let need = (len + 7) / 8;
+            let bytes: Vec<u8> = (0..need + 10).map(|i| (i as u8).wrapping_mul(37).wrapping_add(0x81 ^ (i >> 8) as u8) | 0x80).collect();
+            for big in [false, true] {
+                if !f(C13Case::Read { ty, bytes: bytes.clone(), len, big, chunked: false }) {
+                    return;
+                }
+            }
+            if len <= fixed_cap(ty).unwrap_or(usize::MAX) && !f(C13Case::Out { a: Operand::canon(ty, dense_value(len)) }) {
+                return;
+            }
+        }
+        // from_bytes around the capacity of the 70 400-bit type
+        for nb in [8191usize, 8192, 8193, 8799, 8800, 8801] {
+            if !sh.mine() {
+                continue;
+            }
+            for big in [false, true] {
+                let bytes: Vec<u8> = (0..nb).map(|i| (i as u8).wrapping_mul(101).wrapping_add(0x1d) | 1).collect();
+                if !f(C13Case::FromBytes { ty: TID_HUGE, bytes, big }) {
+                    return;
+                }
+            }
+        }
+        for ty in ROUTINE_TIDS {
             if !sh.mine() {
                 continue;
             }
